@@ -13,7 +13,7 @@ RULE = ("Engine F: generated factories of all topologies incl. finite inputs run
         "on every in-edge its policy names (FIRST_AVAILABLE: all; otherwise exactly the chosen one) and no such edge has an "
         "available unreserved item; no retrieval request of a machine or sink is granted and still unused; (out) no space "
         "request of a blocking node is granted and still unused; (in, splitters and combiners) no retrieval request is still pending "
-        "while its edge holds an available unreserved item; (sink) no in-edge of a sink holds an available unreserved "
+        "while its edge holds an available unreserved item, and a combiner (like a machine or a sink) holds no granted, unused retrieval; (sink) no in-edge of a sink holds an available unreserved "
         "item; (tokens) a machine/splitter/sink never holds more than one live retrieval request per in-edge, and a node "
         "holds no live space request unless it holds a finished item; at quiescence no granted-unused token exists. "
         "Non-trivial: a node with >= 2 in- or out-edges under FIRST_AVAILABLE had two of its requests granted in the same "
